@@ -54,6 +54,14 @@ theorem copies_keep_structural_drop_consistency (o : Opts) :
     (extendsOpts o).skipValidation = true ∧ (extendsOpts o).skipConsistencyCheck = true := by
   rw [includeOpts_eq, extendsOpts_eq]; exact ⟨rfl, rfl, rfl, rfl⟩
 
+/-- nesting changes nothing: a project included by an included project, and an `extends` base reached from an included
+project, are loaded with the same options as at the first level (the copies are taken from copies) -/
+theorem includeOpts_idem (o : Opts) : includeOpts (includeOpts o) = includeOpts o := by
+  rw [includeOpts_eq (includeOpts o), includeOpts_eq o]
+
+theorem extendsOpts_const (o o' : Opts) : extendsOpts o = extendsOpts o' := by
+  rw [extendsOpts_eq, extendsOpts_eq]
+
 /-- which checks a model goes through by itself, per role -/
 theorem checksRun_spec (o : Opts) :
     checksRun o .main = (if o.skipValidation then [] else [Check.structural]) ++
